@@ -501,6 +501,16 @@ func genC08(c *Ctx) {
 		isActive[x] = true
 	}
 	ids := append(append([]string{}, tActive...), tDeprec...)
+	// bases of listed X-or-later / X-only ids that are not listed themselves (GFDL-1.1-invariants): X+ and X-or-later
+	// are both valid spellings for them too
+	for _, x := range append(append([]string{}, tActive...), tDeprec...) {
+		for _, sfx := range []string{"-or-later", "-only"} {
+			if b := strings.TrimSuffix(x, sfx); b != x && !tListed[b] {
+				ids = append(ids, b)
+			}
+		}
+	}
+	ids = uniq(ids)
 	exc := " WITH Classpath-exception-2.0"
 	for idx, x := range ids {
 		if !isIDWord(x) {
@@ -1158,6 +1168,10 @@ func genC15(c *Ctx) {
 		i := 0
 		prefixes = append(prefixes, label(sh, lab, &i).render(c.rng.Intn(5), c.rng))
 	}
+	var longJunk []string
+	for _, n := range []int{31, 32, 33, 63, 64, 65, 66, 100, 127, 128, 129, 255, 257, 1000, 5000} {
+		longJunk = append(longJunk, strings.Repeat("x", n), "Vendor-"+strings.Repeat("License-", n/8)+"2.0", strings.Repeat("q", n)+"-or-later", strings.Repeat("Z", n)+"+")
+	}
 	junk := []string{"FOO", "FOO-or-later", "unknown-1.0+", "LicenseRef-", "DocumentRef-", "LicenseRef-!", "DocumentRef-:", "é", "\xff", "_x", "Apache-3.0-or-later", "GPL-9.0-only", "x-or-later-or-later", "-or-later", "!"}
 	glue := []string{" AND ", " OR ", " AND (", " OR (MIT AND ", "  AND  ", " WITH ", " ", "", "+ AND ", " AND MIT AND "}
 	check := func(s string) {
@@ -1203,12 +1217,6 @@ func genC15(c *Ctx) {
 		check(junk[c.rng.Intn(len(junk))] + " AND " + p)
 		c.sample(p + " AND FOO")
 	}
-	for _, j := range junk {
-		check(j)
-		check("Apache-2.0-or-later AND " + j)
-		check("Apache-2.0-or-later\tAND " + j)
-		check("(Apache-2.0-or-later OR MIT-or-later) AND " + j)
-	}
 	// the same through Satisfies: the expression argument, and an allowed entry at any position of the list
 	// (earlier entries may themselves have been rewritten: -or-later forms)
 	located := func(what string, s string, r string, args interface{}) {
@@ -1227,6 +1235,29 @@ func genC15(c *Ctx) {
 				c.fail("Satisfies", args, fmt.Sprintf("expected id at offset %d", o), "an offset of "+what+" where no id starts", "0 <= o <= len(s) and no id character there")
 			}
 		}
+	}
+	for _, j := range longJunk {
+		check(j)
+		check("MIT AND " + j)
+		check("Apache-2.0-or-later AND (" + j + " OR ISC)")
+		check("  " + j + " WITH Bison-exception-2.2")
+		c.count("long_unknown_words")
+		for _, A := range [][]string{{j}, {"MIT", "Apache-1.0-or-later", j}} {
+			q := c.Q("MIT", A)
+			if q != unknown {
+				located("the allowed entry", j, q, map[string]interface{}{"expression": "MIT", "allowed": A})
+			}
+		}
+		q := c.Q("GPL-2.0-or-later AND "+j, []string{"MIT"})
+		if q != unknown {
+			located("the expression", "GPL-2.0-or-later AND "+j, q, map[string]interface{}{"expression": "GPL-2.0-or-later AND " + j, "allowed": []string{"MIT"}})
+		}
+	}
+	for _, j := range junk {
+		check(j)
+		check("Apache-2.0-or-later AND " + j)
+		check("Apache-2.0-or-later\tAND " + j)
+		check("(Apache-2.0-or-later OR MIT-or-later) AND " + j)
 	}
 	goodEntries := []string{"MIT", "Apache-1.0-or-later", "MIT-or-later", "GPL-2.0-or-later", "(Zlib-or-later)", " ISC-or-later+"}
 	for i, p := range prefixes {
